@@ -66,7 +66,7 @@ func c06LenSlot(c *Ctx, w *prove.World, m *ssa.Function, em *codec.Ext, k, key, 
 	}
 	fi := w.Info(m)
 	n, proved := 0, 0
-	var unproved, raw []string
+	var unproved, raw, differs []string
 	for _, b := range m.Blocks {
 		if caseOf(em, b, "BufferFormat") != k {
 			continue
@@ -107,6 +107,10 @@ func c06LenSlot(c *Ctx, w *prove.World, m *ssa.Function, em *codec.Ext, k, key, 
 				proved++
 				continue
 			}
+			if cx.Prove(lin.GE(lhs, rhs.AddK(1))) || cx.Prove(lin.LE(lhs, rhs.AddK(-1))) {
+				differs = append(differs, c.P.Rel(call.Pos()))
+				continue
+			}
 			// is the emitted value the incoming field itself?
 			x := v
 			for {
@@ -124,7 +128,7 @@ func c06LenSlot(c *Ctx, w *prove.World, m *ssa.Function, em *codec.Ext, k, key, 
 			if ld, ok := x.(*ssa.UnOp); ok {
 				if fa, ok := ld.X.(*ssa.FieldAddr); ok && fa.X == ssa.Value(recv) && fa.Field == fIdx {
 					rep := fi.LoadRep(ld)
-					if _, stillLoad := rep.(*ssa.UnOp); stillLoad && !storesField(m, recv, fIdx) {
+					if _, stillLoad := rep.(*ssa.UnOp); stillLoad && !storeReaches(m, recv, fIdx, ld) {
 						isRaw = true
 					}
 				}
@@ -137,6 +141,8 @@ func c06LenSlot(c *Ctx, w *prove.World, m *ssa.Function, em *codec.Ext, k, key, 
 		}
 	}
 	switch {
+	case len(differs) > 0:
+		c.R.Fail(rule, construct, differs[0], fmt.Sprintf("E1 proves that the value written into the %s slot differs from len(%s): the decoder follows a length that is not the payload's", F, B))
 	case len(raw) > 0:
 		c.R.Fail(rule, construct, raw[0], fmt.Sprintf("the value written into the %s slot is the receiver's %s field as the caller left it, and nothing in Marshal relates it to len(%s): a value whose %s differs from the payload's length is encoded with a length the decoder will follow into the wrong bytes", F, F, B, F))
 	case n == 0:
@@ -148,12 +154,12 @@ func c06LenSlot(c *Ctx, w *prove.World, m *ssa.Function, em *codec.Ext, k, key, 
 	}
 }
 
-// storesField: fn stores to field #idx of recv anywhere.
-func storesField(fn *ssa.Function, recv ssa.Value, idx int) bool {
+// storeReaches: some store to field #idx of recv can execute before ld.
+func storeReaches(fn *ssa.Function, recv ssa.Value, idx int, ld ssa.Instruction) bool {
 	for _, b := range fn.Blocks {
 		for _, in := range b.Instrs {
 			if st, ok := in.(*ssa.Store); ok {
-				if fa, ok := st.Addr.(*ssa.FieldAddr); ok && fa.X == recv && fa.Field == idx {
+				if fa, ok := st.Addr.(*ssa.FieldAddr); ok && fa.X == recv && fa.Field == idx && instrReaches(st, ld) {
 					return true
 				}
 			}
